@@ -68,6 +68,12 @@ Theorem C08_spherical_block_positive_homogeneous : forall rnd t a y, 0 < t ->
 Proof. exact sph_block_pos_homogeneous. Qed.
 Print Assumptions C08_spherical_block_positive_homogeneous.
 
+(* hence the whole spherical tail is blind to a positive factor on the whole image matrix *)
+Theorem C08_spherical_post_positive_homogeneous : forall rnd t m d img ys, 0 < t ->
+  sph_post_R rnd m d (map (Rmult t) img) ys = sph_post_R rnd m d img ys.
+Proof. exact sph_post_pos_homogeneous. Qed.
+Print Assumptions C08_spherical_post_positive_homogeneous.
+
 (* C08_unique_image carried to the embedding: two encodings E, E' of one measure (plan transfers in both
    directions: C08_transfer_perm / _pad / _split / _transfers_compose), unique optimal image for E; then WHATEVER
    optimal plans the solver returns for E and for E', the spherical LOT rows, signed square root included, are equal *)
@@ -187,14 +193,20 @@ Theorem C08_sinkhorn_same_stop_partial : forall (Item St Row : Type) init step n
 Proof. exact sinkhorn_rows_same_stop. Qed.
 Print Assumptions C08_sinkhorn_same_stop_partial.
 
-(* with the model's own tail as `post` (state = the column's (u, v)): positive rescaling of a column's coupling
-   (u -> t u) does not change its row *)
+(* with the model's own tail as `post` (state = the column's (u, v)): the row is made of per-reference-point
+   blocks of the column's own image, and a positive factor on the column's u (the Sinkhorn scalings are determined
+   up to such factors only) does not change it *)
 Theorem C08_sinkhorn_row_blockwise_partial : forall rnd m d u K v vectors ys j, (j < m)%nat -> (j < length ys)%nat ->
   sinkhorn_row_R rnd m d u K v vectors ys = concat (map2 (sph_block_R rnd) (chunk R m d (sink_images_R d u K v vectors)) ys) /\
   nth j (map2 (sph_block_R rnd) (chunk R m d (sink_images_R d u K v vectors)) ys) []
   = sph_block_R rnd (firstn d (skipn (j * d) (sink_images_R d u K v vectors))) (nth j ys []).
 Proof. intros rnd m d u K v vectors ys j Hm Hy. split; [reflexivity | apply sph_post_blockwise; assumption]. Qed.
 Print Assumptions C08_sinkhorn_row_blockwise_partial.
+
+Theorem C08_sinkhorn_row_scale_partial : forall rnd t m d u K v vectors ys, 0 < t ->
+  sinkhorn_row_R rnd m d (map (Rmult t) u) K v vectors ys = sinkhorn_row_R rnd m d u K v vectors ys.
+Proof. exact sinkhorn_row_u_scale. Qed.
+Print Assumptions C08_sinkhorn_row_scale_partial.
 
 (* ================================================================ non-vacuity *)
 (* sqrt 4 = 2 etc.: a concrete spherical block.  image row (3, 4) -> (3/5, 4/5); reference (1, 0):
